@@ -1126,6 +1126,10 @@ func (e *cenv) locsOf(m Expr) []loc {
 		if x.Name == "lockset" {
 			return []loc{{Var: vc.heapVar("$held", "(Array Int Bool)"), Kind: "global"}}
 		}
+		if x.Name == "mapviews" {
+			// the ghost views of goutil.Map objects
+			return []loc{{Var: vc.heapVar("GF!gkeys", "(Array Int (Array Iface Bool))"), Kind: "global"}, {Var: vc.heapVar("GF!gvals", "(Array Int (Array Iface Iface))"), Kind: "global"}}
+		}
 		if x.Name == "channels" {
 			// the channel monitors (sends per channel, closed flag)
 			return []loc{{Var: vc.heapVar("GF!chanSent", "(Array Int Int)"), Kind: "global"}, {Var: vc.heapVar("GF!chanClosed", "(Array Int Bool)"), Kind: "global"}}
@@ -1232,6 +1236,9 @@ func (vc *VC) modVarsOfExpr(m Expr, fn *ssa.Function, k *FuncContract, sigs ...*
 	if k != nil {
 		if i := strings.Index(k.Name, " in "); i > 0 {
 			if caller := vc.P.Funcs[k.Name[i+4:]]; caller != nil {
+				for _, pp := range caller.Params {
+					dummy(pp.Name(), pp.Type())
+				}
 				for _, l := range caller.Locals {
 					if l.Comment != "" {
 						dummy(l.Comment, l.Type().Underlying().(*types.Pointer).Elem())
